@@ -127,6 +127,56 @@ def _walk(t: Any) -> Any:
 
 
 
+
+def _declaration_excludes(prog: Program, model: Model, st: SchemaType, pred: Tuple[str, bool]) -> bool:
+    """Does every accepting path of <Schema>.__call__ (from the empty state) carry the fact `pred` with the opposite
+    truth value, i.e. has the declaration refused the values for which the validator's predicate holds?"""
+    from ..engine import Interp
+    f = st.cls.methods.get("__call__")
+    if f is None:
+        return False
+    params = [a.arg for a in f.node.args.posonlyargs + f.node.args.args if a.arg != "self"]
+    if not params:
+        return False
+    it = Interp(prog, model, unroll=1, max_depth=6)
+
+    def run(i: Interp) -> V:
+        sc = i.make_schema(st, (), {}, origin="self")
+        return i.call_function(f, [Sym("<value>", None, ("arg", params[0]))], {}, self_val=sc)
+    acc = [p for p in it.run_paths(run) if p.outcome == "return"]
+    if not acc:
+        return False
+    want = _norm_cmp(pred[0], pred[1])
+    want = (want[0], not want[1])
+    for p in acc:
+        if not any(_norm_cmp(fk, b) == want for fk, _, b in p.facts):
+            return False
+    return True
+
+
+def _norm_cmp(key: str, truth: bool) -> Tuple[str, bool]:
+    """eq/ne facts in one canonical spelling: ne(a, b) is not eq(a, b); operands in sorted order."""
+    import re as _re
+    m = _re.fullmatch(r"(eq|ne)\((.*)\)", key)
+    if not m:
+        return key, truth
+    op, inner = m.group(1), m.group(2)
+    depth = 0
+    cut = -1
+    for i, ch in enumerate(inner):
+        if ch in "([{":
+            depth += 1
+        elif ch in ")]}":
+            depth -= 1
+        elif ch == "," and depth == 0:
+            cut = i
+            break
+    if cut < 0:
+        return key, truth
+    a, b = inner[:cut].strip(), inner[cut + 1:].strip()
+    a, b = sorted((a, b))
+    return f"eq({a}, {b})", (truth if op == "eq" else not truth)
+
 def _valchk_kind(run: Run, prog: Program, model: Model, st: SchemaType) -> None:
     """VALCHK-KIND: "a fixed value conforms to the schema itself" starts with its kind.  The kinds the declaration
     admits for the fixed value (read off its isinstance guards, minus the kinds it excludes) are handed to the
@@ -144,6 +194,7 @@ def _valchk_kind(run: Run, prog: Program, model: Model, st: SchemaType) -> None:
         return
     exc = excluded_kinds(prog, model, st, "value")
     bad: List[str] = []
+    selfbad: List[str] = []
     for k in sorted(adm):
         it = Interp(prog, model, unroll=1, max_depth=6)
 
@@ -159,6 +210,23 @@ def _valchk_kind(run: Run, prog: Program, model: Model, st: SchemaType) -> None:
                     last = p.facts[:e.nfacts][-1] if p.facts[:e.nfacts] else None
                     bad.append(f"a declared {k} value is reported as a type error when "
                                f"{('' if last and last[2] else 'not ') + (last[0][:60] if last else '?')}")
+                elif e.kind == "construct" and e.data.get("cls") is not None and e.data["cls"].name.endswith("ValidationError"):
+                    # any other error about the declared value itself: the deciding predicate must be a comparison of
+                    # the value with itself (NaN corner) or one the declaration rules out on every accepting path
+                    from .c12 import _reflexive
+                    last = p.facts[:e.nfacts][-1] if p.facts[:e.nfacts] else None
+                    if last is None or _reflexive(last[1], k):
+                        continue
+                    pred = (last[0].replace("props.value", "<value>"), last[2])
+                    if not _declaration_excludes(prog, model, st, pred):
+                        selfbad.append(f"{e.data['cls'].name} for the declared value itself when {('' if pred[1] else 'not ') + pred[0][:60]}: "
+                                       "no accepting path of the declaration rules that out")
+    c2 = f"{st.name}(value): the validator's own checks of a fixed value are made at declaration"
+    if selfbad:
+        run.violated("VALCHK-SELF", c2, f.loc, "; ".join(sorted(set(selfbad)))[:300],
+                     witness="s = schema.uuid4(uuid.uuid1()) is accepted and validate(s, s.props.value) reports InvalidUUIDVersionValidationError")
+    else:
+        run.holds("VALCHK-SELF", c2, f.loc, "no error other than a reflexive value comparison is reachable for the declared value", nontrivial=True)
     if bad:
         run.violated("VALCHK-KIND", c, f.loc, "; ".join(sorted(set(bad)))[:300],
                      witness=f"s = schema.{st.facade_name or st.name}(<value of an admitted kind, e.g. True for an int>); "
@@ -369,6 +437,8 @@ S = "d42/declaration/types/_str_schema.py"
 I = "d42/declaration/types/_int_schema.py"
 L = "d42/declaration/types/_list_schema.py"
 MUTANTS = [
+    {"name": "uuid4 declaration accepts any UUID version again (fix f203471 reverted)", "rule": "VALCHK-SELF",
+     "edits": [("d42/declaration/types/_uuid4_schema.py", "        if value.version != 4:\n", "        if False:\n")]},
     {"name": "len error helpers use :d and the exact-len check runs before the type check (seeded C10-I)", "rule": "ONLY-DECLARATIONERROR",
      "edits": [("d42/declaration/errors/__init__.py", "    message = f\"`{schema!r}` len must be equal to {len(value)}, {length} given\"", "    message = f\"`{schema!r}` len must be equal to {len(value):d}, {length:d} given\""),
                ("d42/declaration/types/_str_schema.py", "        if not isinstance(length, int):\n            raise make_invalid_type_error(self, length, (int,))\n\n        if (props.value is not Nil) and (len(props.value) != length):\n            raise make_incorrect_len_error(self, props.value, length)\n",
